@@ -191,7 +191,7 @@ def _tall_worker(item):
 
 def run(col):
     env.load()
-    mx = 3 if col.tier == 'quick' else 4
+    mx = 4 if col.tier == 'quick' else 5
     col.rule = (f"complete enumeration of the documented selector grammar (DESIGN Appendix B) on every plate shape R x C with "
                 f"R, C in 1..{mx}, under 3 labelings (default, alphabetic custom, permuted digit strings), plus 27x2 / 28x1 / "
                 f"53x1 default plates for labels beyond 'Z', plus a reject family (out-of-range, unknown labels, label/int "
